@@ -535,6 +535,8 @@ class Table(object):
         col_id = value._replace(value=col_id)
         value = value.value
       else:
+        if not self.has_column(col_id):
+          raise self._missing_column_error(col_id)
         col = self.get_column(col_id)
         # Convert `value` to the correct type of rich value for that column
         value = col._convert_raw_value(col.convert(value))
@@ -557,6 +559,11 @@ class Table(object):
   def lookup_one_record(self, **kwargs):
     return self.lookup_records(**kwargs).get_one()
 
+  def _missing_column_error(self, col_id):
+    # Depend on "new columns", so that a failed lookup is retried if such a column gets added.
+    self._engine._use_node(self._new_columns_node, self._identity_relation)
+    return KeyError("Table %s has no column %s" % (self.table_id, col_id))
+
   def _get_lookup_map(self, col_ids_tuple):
     """
     Helper which returns the LookupMapColumn for the given combination of lookup columns. A
@@ -572,7 +579,7 @@ class Table(object):
       for c in col_ids_tuple:
         c = lookup.extract_column_id(c)
         if not self.has_column(c):
-          raise KeyError("Table %s has no column %s" % (self.table_id, c))
+          raise self._missing_column_error(c)
       lmap = lookup.LookupMapColumn(self, lookup_col_id, col_ids_tuple)
       self._add_special_col(lmap)
     return lmap
